@@ -116,6 +116,22 @@ def run_check(spec, tier, seed, only_stage=None):
     # ---------------- implementation side
     stage_reports = []
     with Scratch(pid) as scratch:
+        if spec.get("drift"):
+            # glue code the models rest on without driving it through hooks: its listing of
+            # synchronisation, time/context-control and same-package calls against the committed one
+            try:
+                _ov, listing = instrument(scratch)
+                diffs, _cur = syncops_drift(listing, spec["drift"])
+                for key, exp, cur in diffs[:5]:
+                    violations.append({"key": "corr_ops_" + key.split("::")[-1], "concrete": False,
+                                       "what": "the synchronisation / control operations of %s changed: modelled %r, now %r; the theorems are about a program the code no longer is"
+                                               % (key, exp, cur),
+                                       "unchecked": "corr_ops_" + key.split("::")[-1]})
+                stats["glue.syncop_entries_compared"] = len(spec["drift"])
+            except Exception as ex:
+                violations.append({"key": "corr_instrument_glue", "concrete": False,
+                                   "what": "instrumentation of the current sources failed: %s" % ex,
+                                   "unchecked": "corr_instrument_glue"})
         for stage in spec["stages"]:
             if only_stage and stage["name"] != only_stage:
                 continue
